@@ -19,6 +19,7 @@ EXPLANATION = (
     "crosses the running edge of a test of the model status. Both batch drivers step the model only under a running "
     "test. Decides the structure that makes completion final for every schedule; does not decide user code writing "
     "_status directly.")
+EXPLANATION += (" The status that is tested is the scheduler's own model - a status read through the scheduled system (sys.model) does not count. Drivers are discovered: every package function outside the scheduler that calls Model.execute or execute_systems.")
 ASSUMPTIONS = ["G6: user code completes a model only through Model.complete()", "IntEnum members compare as their declared values"]
 
 SLOC = (CORE + 'Model', '_status')
